@@ -35,7 +35,19 @@ def main():
         print(f'INFRA-ERROR {pid}: {e}', file=sys.stderr)
         sys.exit(2)
     except Exception:
+        tb = traceback.format_exc()
         traceback.print_exc()
+        lib = os.path.join(core.REPO, 'src', 'peptacular')
+        if lib in tb:
+            # the library itself raised inside a stage that never raises on the unchanged tree: the check could not be
+            # completed, so the property is no longer shown to hold; report it (no concrete input) instead of crashing
+            os.makedirs(core.REPLAY, exist_ok=True)
+            path = os.path.join(core.REPLAY, f'{pid}-stage-exception.json')
+            json.dump({'property': pid, 'kind': 'unproved', 'note': 'a check stage was aborted by an exception raised inside '
+                       'the library; the correspondence / oracle of this property could not be completed', 'traceback': tb[-6000:]},
+                      open(path, 'w'), indent=1)
+            print(f'VIOLATION property={pid} replay={path} no-failing-input-found')
+            sys.exit(1)
         print(f'INFRA-ERROR {pid}: harness exception', file=sys.stderr)
         sys.exit(2)
 
